@@ -22,6 +22,187 @@ import RosuModel.Lemmas.FloatErrRangeSqrt
 namespace Rosu.C19
 open Rosu Rosu.Curve Rosu.FErr
 
+/-! ## (i) the natural cumulative lengths of a bounded finite path are finite -/
+
+theorem lt127_of_le60 (x : ℚ) (h : x ≤ 1152921504606846976) : x < (2 : ℚ) ^ (127 : Int) := by
+  have h1 : (2 : ℚ) ^ (60 : Int) < (2 : ℚ) ^ (127 : Int) := zpow_lt_zpow_right₀ (by norm_num) (by norm_num)
+  have h2 : (2 : ℚ) ^ (60 : Int) = 1152921504606846976 := by norm_num
+  linarith
+
+theorem lt1023_of_le70 (x : ℚ) (h : x ≤ 1180591620717411303424) : x < (2 : ℚ) ^ (1023 : Int) := by
+  have h1 : (2 : ℚ) ^ (70 : Int) < (2 : ℚ) ^ (1023 : Int) := zpow_lt_zpow_right₀ (by norm_num) (by norm_num)
+  have h2 : (2 : ℚ) ^ (70 : Int) = 1180591620717411303424 := by norm_num
+  exact lt_of_le_of_lt (le_trans h (le_of_eq h2.symm)) h1
+
+/-- the difference of two finite `f32`s bounded by `2¹⁹` is finite and bounded by `2²¹`. -/
+theorem coordDiff_bounded (u v : Float32) (fu : u.isFinite = true) (fv : v.isFinite = true)
+    (bu : |toRat32 u| ≤ 524288) (bv : |toRat32 v| ≤ 524288) :
+    (u - v).isFinite = true ∧ |toRat32 (u - v)| ≤ 2097152 := by
+  have hX : |toRat32 u - toRat32 v| ≤ 1048576 := by
+    rw [abs_le] at *; constructor <;> linarith
+  have ff := sub_finite_float32 u v fu fv (lt127_of_le60 _ (by linarith))
+  obtain ⟨δ, hδ, hv⟩ := sub_err_float32 u v fu fv ff
+  refine ⟨ff, ?_⟩
+  have h24 : (2 : ℚ) ^ (-24 : Int) ≤ 1 := by norm_num
+  have h1 : |1 + δ| ≤ 2 := by
+    rw [abs_le] at hδ ⊢; constructor <;> linarith
+  rw [hv, abs_mul]
+  calc |toRat32 u - toRat32 v| * |1 + δ| ≤ 1048576 * 2 := mul_le_mul hX h1 (abs_nonneg _) (by norm_num)
+    _ = 2097152 := by norm_num
+
+/-- the square of a finite `f32` bounded by `2²¹` is finite and bounded by `2⁴⁴`. -/
+theorem coordSq_bounded (w : Float32) (fw : w.isFinite = true) (bw : |toRat32 w| ≤ 2097152) :
+    (w * w).isFinite = true ∧ |toRat32 (w * w)| ≤ 17592186044416 := by
+  have hP : |toRat32 w * toRat32 w| ≤ 4398046511104 := by
+    rw [abs_mul]
+    calc |toRat32 w| * |toRat32 w| ≤ 2097152 * 2097152 := mul_le_mul bw bw (abs_nonneg _) (by norm_num)
+      _ = 4398046511104 := by norm_num
+  have ff := mul_finite_float32 w w fw fw (lt127_of_le60 _ (by linarith))
+  have he := mul_err_abs_float32 w w fw fw ff
+  refine ⟨ff, ?_⟩
+  have h150 : (2 : ℚ) ^ (-150 : Int) ≤ 1 := by norm_num
+  have h24 : (2 : ℚ) ^ (-24 : Int) * |toRat32 w * toRat32 w| ≤ 1 * |toRat32 w * toRat32 w| :=
+    mul_le_mul_of_nonneg_right (by norm_num) (abs_nonneg _)
+  have := abs_le_add_of_sub _ _ _ he
+  linarith
+
+/-- **the booked `f32` length of a segment between two finite points bounded by `2¹⁹` is finite, `0 ≤ ℓ ≤ 2²⁶`** (nine
+roundings, none overflows: differences `≤ 2²¹`, squares `≤ 2⁴⁴`, their sum `≤ 2⁴⁶`, its `f64` root — finite by
+`sqrt_finite_float` — `≤ 2²⁴`, the cast `≤ 2²⁶`; the true value is `≤ 2²⁰·√2`). -/
+theorem seglen_bounded (a b : Pos Float32) (ha : C16.FinitePos a) (hb : C16.FinitePos b)
+    (hba : C16.Bounded19 a) (hbb : C16.Bounded19 b) :
+    (Pos.length Float (b - a)).isFinite = true ∧ 0 ≤ toRat32 (Pos.length Float (b - a)) ∧
+      toRat32 (Pos.length Float (b - a)) ≤ 67108864 := by
+  obtain ⟨fax, fay⟩ := ha
+  obtain ⟨fbx, fby⟩ := hb
+  obtain ⟨bax, bay⟩ := hba
+  obtain ⟨bbx, bby⟩ := hbb
+  obtain ⟨fdx, bdx⟩ := coordDiff_bounded b.x a.x fbx fax bbx bax
+  obtain ⟨fdy, bdy⟩ := coordDiff_bounded b.y a.y fby fay bby bay
+  have ex : (b - a).x = b.x - a.x := rfl
+  have ey : (b - a).y = b.y - a.y := rfl
+  rw [← ex] at fdx bdx; rw [← ey] at fdy bdy
+  obtain ⟨fsx, bsx⟩ := coordSq_bounded _ fdx bdx
+  obtain ⟨fsy, bsy⟩ := coordSq_bounded _ fdy bdy
+  have hsum : |toRat32 ((b - a).x * (b - a).x) + toRat32 ((b - a).y * (b - a).y)| ≤ 35184372088832 := by
+    rw [abs_le] at *; constructor <;> linarith
+  have fs := add_finite_float32 _ _ fsx fsy (lt127_of_le60 _ (by linarith))
+  obtain ⟨δ, hδ, hv⟩ := add_err_float32 _ _ fsx fsy fs
+  have hs0 : Scalar.le (0 : Float32) ((b - a).x * (b - a).x + (b - a).y * (b - a).y) = true :=
+    C16.sumsq_nonneg (b - a) (not_nan_of_finite32 _ fdx) (not_nan_of_finite32 _ fdy)
+  have hsv0 := toRat32_nonneg _ hs0 fs
+  have hsle : toRat32 ((b - a).x * (b - a).x + (b - a).y * (b - a).y) ≤ 70368744177664 := by
+    have h1 : |1 + δ| ≤ 2 := by
+      have h24 : (2 : ℚ) ^ (-24 : Int) ≤ 1 := by norm_num
+      rw [abs_le] at hδ ⊢; constructor <;> linarith
+    have := le_abs_self (toRat32 ((b - a).x * (b - a).x + (b - a).y * (b - a).y))
+    rw [hv, abs_mul] at this
+    rw [hv]
+    calc _ ≤ _ := this
+      _ ≤ 35184372088832 * 2 := mul_le_mul hsum h1 (abs_nonneg _) (by norm_num)
+      _ = 70368744177664 := by norm_num
+  rw [C16.length_eq]
+  generalize (b - a).x * (b - a).x + (b - a).y * (b - a).y = s at *
+  have fU := up_finite s fs
+  have vU := toRat_up s fs
+  have hU0 : 0 ≤ toRat (Cvt.up s : Float) := by rw [vU]; exact hsv0
+  obtain ⟨fR, hR0, _, _⟩ := sqrt_sq_err_float' _ fU hU0
+  have hRle := sqrt_le_float _ fU hU0 8388608 (by norm_num) (by rw [vU]; norm_num; exact hsle)
+  have hR16 : toRat (Scalar.sqrt (Cvt.up s : Float) : Float) ≤ 16777216 := by
+    have : (8388608 : ℚ) * (1 + (2 : ℚ) ^ (-52 : Int)) ≤ 16777216 := by norm_num
+    linarith
+  have fL := down_finite_of_lt _ fR (lt127_of_le60 _ (by rw [abs_of_nonneg hR0]; linarith))
+  have hL0 := down_nonneg_val _ fR fL hR0
+  have hrnd := (down_rnd _ fR fL).abs_add
+  refine ⟨fL, hL0, ?_⟩
+  rw [abs_of_nonneg hR0] at hrnd
+  have h150 : (2 : ℚ) ^ (-150 : Int) ≤ 1 := by norm_num
+  have h24 : (2 : ℚ) ^ (-24 : Int) * toRat (Scalar.sqrt (Cvt.up s : Float) : Float) ≤
+      1 * toRat (Scalar.sqrt (Cvt.up s : Float) : Float) := mul_le_mul_of_nonneg_right (by norm_num) hR0
+  have := (abs_le.mp hrnd).2
+  linarith
+
+/-- **the `f64` running sum of at most `2⁴⁰` booked lengths does not overflow**: started at a finite `0 ≤ c ≤ k·2²⁷` (`k`
+segments already booked), every cumulative length `calculate_length` pushes for `path` is finite, as long as
+`k + path.length ≤ 2⁴⁰ + 1` (invariant: `≤ k·2²⁷` after `k` segments, each addition loses at most `2⁶⁸·2⁻⁵³`). -/
+theorem cumLens_finite (path : List (Pos Float32)) :
+    ∀ (k : Nat) (c : Float), c.isFinite = true → 0 ≤ toRat c → toRat c ≤ (k : ℚ) * 134217728 →
+      k + path.length ≤ 2 ^ 40 + 1 →
+      (∀ p ∈ path, C16.FinitePos p) → (∀ p ∈ path, C16.Bounded19 p) →
+      ∀ v ∈ (cumLens c path).1, v.isFinite = true := by
+  induction path with
+  | nil => intro k c _ _ _ _ _ _ v hv; cases hv
+  | cons a t ih =>
+    cases t with
+    | nil => intro k c _ _ _ _ _ _ v hv; cases hv
+    | cons b t' =>
+      intro k c fc hc0 hck hk hfp hbd v hv
+      obtain ⟨fℓ, hℓ0, hℓle⟩ := seglen_bounded a b (hfp a (by simp)) (hfp b (by simp)) (hbd a (by simp)) (hbd b (by simp))
+      have fu := up_finite _ fℓ
+      have vu := toRat_up _ fℓ
+      have hk' : (k : ℚ) ≤ 1099511627776 := by
+        have : k ≤ 2 ^ 40 := by simp only [List.length_cons] at hk; omega
+        exact_mod_cast this
+      have hS0 : 0 ≤ toRat c + toRat (Cvt.up (Pos.length Float (b - a)) : Float) := by rw [vu]; linarith
+      have hS : toRat c + toRat (Cvt.up (Pos.length Float (b - a)) : Float) ≤ 295147905179352825856 := by
+        rw [vu]; linarith
+      have fc' := add_finite_float c _ fc fu (lt1023_of_le70 _ (by rw [abs_of_nonneg hS0]; linarith))
+      obtain ⟨δ, hδ, hv'⟩ := add_err_float c _ fc fu fc'
+      obtain ⟨d1, d2⟩ := abs_le.mp hδ
+      have hu1 : (2 : ℚ) ^ (-53 : Int) ≤ 1 := by norm_num
+      have hc0' : 0 ≤ toRat (c + (Cvt.up (Pos.length Float (b - a)) : Float)) := by
+        rw [hv']; exact mul_nonneg hS0 (by linarith)
+      have hck' : toRat (c + (Cvt.up (Pos.length Float (b - a)) : Float)) ≤ ((k + 1 : Nat) : ℚ) * 134217728 := by
+        rw [hv']
+        have e1 : (toRat c + toRat (Cvt.up (Pos.length Float (b - a)) : Float)) * δ ≤
+            (toRat c + toRat (Cvt.up (Pos.length Float (b - a)) : Float)) * (2 : ℚ) ^ (-53 : Int) :=
+          mul_le_mul_of_nonneg_left d2 hS0
+        have e2 : (toRat c + toRat (Cvt.up (Pos.length Float (b - a)) : Float)) * (2 : ℚ) ^ (-53 : Int) ≤
+            295147905179352825856 * (2 : ℚ) ^ (-53 : Int) := mul_le_mul_of_nonneg_right hS (by positivity)
+        have e3 : (295147905179352825856 : ℚ) * (2 : ℚ) ^ (-53 : Int) ≤ 67108864 := by norm_num
+        rw [vu] at e1 e2 ⊢
+        push_cast
+        linarith
+      rw [C16.cumLens_cons2] at hv
+      rcases List.mem_cons.mp hv with rfl | hv
+      · exact fc'
+      · refine ih (k + 1) _ fc' hc0' hck' (by simp only [List.length_cons] at hk ⊢; omega)
+          (fun p hp => hfp p (List.mem_cons_of_mem _ hp)) (fun p hp => hbd p (List.mem_cons_of_mem _ hp)) v hv
+
+/-- **`natural_total_finite_float`**: for a path of at most `2⁴⁰` vertices with finite coordinates bounded by `2¹⁹`, every
+natural cumulative length (`natLens 0 path`, what `calculate_length` stores without a requested length) is finite — the
+total in particular. -/
+theorem natural_total_finite_float (path : List (Pos Float32)) (hfp : ∀ p ∈ path, C16.FinitePos p)
+    (hbd : ∀ p ∈ path, C16.Bounded19 p) (hlen : path.length ≤ 2 ^ 40) :
+    ∀ v ∈ C16.natLens (0 : Float) path, FX.Finite64 v := by
+  intro v hv
+  unfold C16.natLens at hv
+  rcases List.mem_cons.mp hv with rfl | hv
+  · exact C16.zero_finite_float
+  · exact cumLens_finite path 0 0 rfl (by rw [toRat_zero]) (by rw [toRat_zero]; norm_num) (by omega) hfp hbd v hv
+
+section New
+variable [Trig Float32]
+
+/-- **C19 / C16 on IEEE floats, end to end for linear sliders — the recorded full statement, no overflow hypothesis.**
+Control points all linear, finite, bounded by `2¹⁹`; the curve `Curve::new` computes without a requested length has at most
+`2⁴⁰` path points; any progress that is a number: `position_at(progress)` is within `1/4` px per coordinate of a point of a
+segment between two consecutive path vertices, both control-point positions. -/
+theorem linear_curve_position_err_float32 : linear_curve_position_err_float32_statement := by
+  intro fuel mode pts b b' c q hl hne hbd hfp h hlen hq
+  obtain ⟨hmem, _, hlens⟩ := linear_curve_shape fuel mode pts b b' c hl hne h
+  have hbd' : ∀ p ∈ c.path, C16.Bounded19 p := by
+    intro p hp; obtain ⟨cp, hcp, rfl⟩ := hmem p hp; exact hbd cp hcp
+  have hfp' : ∀ p ∈ c.path, C16.FinitePos p := by
+    intro p hp; obtain ⟨cp, hcp, rfl⟩ := hmem p hp; exact hfp cp hcp
+  refine linear_curve_position_err_float32_partial fuel mode pts b b' c q hl hne hbd hfp h ?_ hq
+  intro x hx
+  have := natural_total_finite_float c.path hfp' hbd' hlen
+  rw [← hlens] at this
+  exact this x (List.mem_of_getLast? hx)
+
+end New
+
 /-! ## (ii) the arc-length clause without the non-degeneracy hypothesis -/
 
 /-- the most a degenerate bracket can be long: `2⁻⁵² (1 + 2⁻⁵²)` (`abs_sub_le_eps_toRat`). -/
